@@ -8,6 +8,7 @@ import (
 	"errors"
 	"fmt"
 	"io"
+	"math"
 )
 
 // Variable size structure prefix-header byte lengths
@@ -231,6 +232,9 @@ func UnmarshalDigitallySigned(r io.Reader) (*DigitallySigned, error) {
 
 func marshalDigitallySignedHere(ds DigitallySigned, here []byte) ([]byte, error) {
 	sigLen := len(ds.Signature)
+	if sigLen > math.MaxUint16 {
+		return nil, fmt.Errorf("signature too large: %d bytes do not fit the %d byte length prefix", sigLen, SignatureLengthBytes)
+	}
 	dsOutLen := 2 + SignatureLengthBytes + sigLen
 	if here == nil {
 		here = make([]byte, dsOutLen)
